@@ -903,6 +903,17 @@ class Interp(object):
         short = c.rsplit("::", 1)[-1]
         if any(is_extra(a) for a in args) and libmodel.is_safe(c) and all(is_extra(a) or isinstance(a, (int, bool)) for a in args):
             return Opaque("extra", ())
+        if c == "<core::result::Result<T, E> as core::ops::Try>::branch":
+            r = args[0]
+            if isinstance(r, Adt) and r.vname == "Ok":
+                return Adt("core::ops::ControlFlow", 0, "Continue", [r.fields[0]])
+            if isinstance(r, Adt) and r.vname == "Err":
+                return Adt("core::ops::ControlFlow", 1, "Break", [Adt("core::result::Result", 1, "Err", [r.fields[0]])])
+            raise Undecided("`?` on an unknown result")
+        if c.endswith("FromResidual<core::result::Result<core::convert::Infallible, E>>>::from_residual"):
+            if isinstance(args[0], Adt) and args[0].vname == "Err":
+                return args[0]
+            raise Undecided("from_residual of an unknown residual")
         if c == "core::slice::<impl [T]>::len":
             return self.slice_len(args[0])
         if c in ("core::slice::<impl [T]>::iter", "core::slice::<impl [T]>::iter_mut"):
